@@ -26,6 +26,23 @@ func TestReplay(t *testing.T) {
 				_, o, err := m.run(mc.Req)
 				return o, err
 			}
+			if kind == "cfs-mount" {
+				var mc MountCase
+				if err := json.Unmarshal(raw, &mc); err != nil {
+					return vev.Outcome{}, err
+				}
+				m, err := newMountEnv()
+				if err != nil {
+					t.Logf("mount refused (%v): witness skipped", err)
+					return vev.Outcome{}, nil
+				}
+				defer m.close()
+				_, o02, o17, err := evalMount(m, mc)
+				if x.rec == rec17 {
+					return o17, err
+				}
+				return o02, err
+			}
 			var c Case
 			if err := json.Unmarshal(raw, &c); err != nil {
 				return vev.Outcome{}, err
